@@ -12,7 +12,10 @@ from .srcmodel import Unknown, FuncRef, Regex, Partial, func_params, unparse
 
 
 import re as _re_mod
+from urllib.parse import SplitResult as _SplitResult
 _re_Match = _re_mod.Match
+_ISINSTANCE = {"str": str, "string_type": str, "dict": dict, "list": list, "tuple": tuple, "bytes": bytes, "SplitResult": _SplitResult,
+               "Iterable": (list, tuple, set, frozenset, dict, str)}
 
 
 _STR_METHODS = (
@@ -183,6 +186,9 @@ class _Interp(object):
             self.expr(st.value)
         elif isinstance(st, ast.Pass):
             pass
+        elif isinstance(st, ast.Assert):
+            if not self.expr(st.test):
+                raise Raised("AssertionError")
         elif isinstance(st, ast.While):
             fuel = 10000
             while self.expr(st.test):
@@ -204,6 +210,20 @@ class _Interp(object):
                     break
                 except _Continue:
                     continue
+        elif isinstance(st, ast.Try):
+            try:
+                self.block(st.body)
+            except Raised as e:
+                for h in st.handlers:
+                    names = [unparse(x) for x in (h.type.elts if isinstance(h.type, ast.Tuple) else [h.type])] if h.type is not None else [e.name]
+                    if e.name in names or "Exception" in names or "BaseException" in names:
+                        self.block(h.body)
+                        break
+                else:
+                    raise
+            else:
+                self.block(st.orelse)
+            self.block(st.finalbody)
         elif isinstance(st, ast.Raise):
             name = "Exception"
             if st.exc is not None:
@@ -308,6 +328,11 @@ class _Interp(object):
                 if n.attr in base.attrs:
                     return base.attrs[n.attr]
                 return _class_member(self.repo, base, n.attr)
+            if isinstance(base, _SplitResult) and n.attr in ("scheme", "netloc", "path", "query", "fragment", "hostname", "port", "username", "password"):
+                try:
+                    return getattr(base, n.attr)
+                except ValueError:
+                    raise Raised("ValueError")
             raise Unknown("attribute %s" % n.attr)
         if isinstance(n, ast.Name) and n.id not in self.env:
             ref = self.repo.resolve(self.module, n.id)
@@ -333,7 +358,7 @@ class _Interp(object):
         if isinstance(f, ast.Name) and f.id == "isinstance" and f.id not in self.env and len(n.args) == 2:
             # only against the handful of types the helpers use (the type expression is not evaluated)
             tname = unparse(n.args[1])
-            table = {"str": str, "string_type": str, "dict": dict, "list": list, "tuple": tuple, "bytes": bytes, "Iterable": (list, tuple, set, frozenset, dict, str)}
+            table = _ISINSTANCE
             if tname in table:
                 return isinstance(self.expr(n.args[0]), table[tname])
             raise Unknown("isinstance against %s" % tname)
@@ -377,25 +402,35 @@ class _Interp(object):
                         raise
                     except Exception as e:
                         raise Unknown("regex op raised %s" % e)
-                    return r if f.attr == "sub" else (r is not None)
+                    return r
                 if isinstance(base, _re_Match) and f.attr in ("group", "start", "end", "span"):
                     return getattr(base, f.attr)(*args)
                 raise Unknown("method %s on %s" % (f.attr, type(base).__name__))
-            if dn == "os.path.splitext":
+            if dn in ("os.path.splitext", "posixpath.splitext"):
                 import posixpath
                 return posixpath.splitext(*args)
+            if dn in ("re.match", "re.search", "re.fullmatch", "re.sub", "re.subn", "re.split", "re.findall", "re.finditer") and args:
+                import re as _re
+                pat = args[0]
+                try:
+                    rx = _re.compile(pat.pattern, pat.flags) if isinstance(pat, Regex) else _re.compile(pat)
+                    rargs = list(args[1:])
+                    if dn == "re.sub" and rargs and isinstance(rargs[0], FuncRef):
+                        cb = rargs[0]
+                        rargs[0] = lambda mo, cb=cb: run_function(self.repo, cb, [mo], None, self.depth + 1)
+                    r = getattr(rx, dn[3:])(*rargs, **kwargs)
+                except Unknown:
+                    raise
+                except Exception as e:
+                    raise Unknown("regex op raised %s" % e)
+                return list(r) if dn == "re.finditer" else r
             # method of an imported module-level constant (e.g. PROTOCOL_RE.match)
             try:
                 base = self.repo.ceval(self.module, f.value)
             except Unknown:
                 base = None
-            if isinstance(base, Regex) and f.attr in ("match", "search", "fullmatch", "sub"):
-                import re as _re
-                try:
-                    r = getattr(_re.compile(base.pattern, base.flags), f.attr)(*args)
-                except Exception as e:
-                    raise Unknown("regex op raised %s" % e)
-                return r if f.attr == "sub" else (r is not None)
+            if isinstance(base, Regex) and f.attr in ("match", "search", "fullmatch", "sub", "subn", "split", "findall", "finditer"):
+                return self.regex_method(base, f.attr, args, kwargs)
             raise Unknown("call %s" % dn)
         if isinstance(f, ast.Name):
             if f.id in self.env:
@@ -411,7 +446,11 @@ class _Interp(object):
                 if tname in table:
                     return isinstance(args[0], table[tname])
                 raise Unknown("isinstance against %s" % tname)
-            if f.id in ("len", "str", "int", "bool", "all", "any", "tuple", "list", "sorted", "min", "max", "callable"):
+            if f.id == "range":
+                return list(range(*args))
+            if f.id in ("len", "str", "int", "bool", "all", "any", "tuple", "list", "sorted", "min", "max", "callable", "dict", "set", "frozenset", "sum", "abs", "enumerate", "zip"):
+                if f.id in ("enumerate", "zip"):
+                    return list({"enumerate": enumerate, "zip": zip}[f.id](*args))
                 if f.id == "callable":
                     return isinstance(args[0], (FuncRef, Bound, Native))
                 import builtins
@@ -420,6 +459,10 @@ class _Interp(object):
                 except Exception as e:
                     raise Unknown("builtin raised %s" % e)
             ref = self.repo.resolve(self.module, f.id)
+            ov = getattr(self.repo, "overrides", None)
+            if ov and ref is not None and ref.qualname in ov:
+                # a rule replaced this callee by its reference model (stated in the rule's description)
+                return ov[ref.qualname].fn(*args, **kwargs)
             if ref is not None and ref.node is not None and isinstance(ref.node, (ast.FunctionDef, ast.Lambda)):
                 return run_function(self.repo, ref, args, kwargs, self.depth + 1)
             if ref is not None and ref.node is not None and isinstance(ref.node, ast.ClassDef):
@@ -437,6 +480,17 @@ class _Interp(object):
             if ref is not None and ref.qualname in ("os.path.splitext", "posixpath.splitext"):
                 import posixpath
                 return posixpath.splitext(*args)
+            if ref is not None and ref.qualname in ("urllib.parse.urlsplit", "urllib.parse.urlunsplit", "urllib.parse.urljoin", "urllib.parse.SplitResult"):
+                import urllib.parse
+                try:
+                    return getattr(urllib.parse, ref.qualname.rpartition(".")[2])(*args, **kwargs)
+                except ValueError:
+                    raise Raised("ValueError")
+                except Exception as e:
+                    raise Unknown("stdlib call raised %s" % e)
+            if ref is not None and ref.qualname in ("html.unescape",):
+                import html
+                return html.unescape(*args)
             if ref is not None and ref.qualname in ("urllib.parse.quote", "urllib.parse.unquote"):
                 # standard-library functions folded on constants
                 import urllib.parse
@@ -446,6 +500,26 @@ class _Interp(object):
                     raise Unknown("stdlib call raised %s" % e)
             raise Unknown("call to %s" % f.id)
         raise Unknown("call shape")
+
+
+def _regex_method(self, base, name, args, kwargs):
+    """constant folding of a regex constant applied to concrete text (stdlib re, no ural code)"""
+    import re as _re
+    try:
+        rx = _re.compile(base.pattern, base.flags)
+        args = list(args)
+        if name in ("sub", "subn") and args and isinstance(args[0], FuncRef):
+            cb = args[0]
+            args[0] = lambda mo, cb=cb: run_function(self.repo, cb, [mo], None, self.depth + 1)
+        r = getattr(rx, name)(*args, **kwargs)
+    except Unknown:
+        raise
+    except Exception as e:
+        raise Unknown("regex op raised %s" % e)
+    return list(r) if name == "finditer" else r
+
+
+_Interp.regex_method = _regex_method
 
 
 def _call_value(self, v, args, kwargs):
